@@ -17,7 +17,7 @@ EXPLANATION = (
     "cannot fingerprint equal by construction; (R3) accounting in Replica::sync_process_message: num_recv is increased by the "
     "message's value count before processing, num_sent by the reply's value count exactly on the Some(reply) edge, "
     "heads_received is updated from every incoming value; (R4) admission/pruning and prefix bounds (shared with C02.R1-R5, "
-    "because reconciliation applies entries through the same put). (R6) what local authoring signs is what remote validation accepts (shared with C03.R9). NOT decided: the termination bound, pivot arithmetic / split "
+    "because reconciliation applies entries through the same put). (R6) what local authoring signs is what remote validation accepts (shared with C03.R9). (R7) per-entry validation during reconciliation (= C03.R1/R2) and the store-actor handlers of the two session requests (K14b). NOT decided: the termination bound, pivot arithmetic / split "
     "coverage, equality of the final sets, emptiness of a second session (value-level over all states)."
 )
 ASSUMPTIONS = ["Meyer's range-based set reconciliation algorithm is correct when its comparisons are as specified", "blake3 collision resistance"]
@@ -551,6 +551,28 @@ def r6(ctx):
     ctx.floor("C01.R6", 5)
 
 
+def r7(ctx):
+    """the listed mechanism "per-entry validation during reconciliation": what sync_process_message lets into the replica is what
+    validate_entry / validate_empty accept (shared with C03.R1/R2), and the two session requests reach the replica unchanged
+    through the store actor (K14b) - the merge of the two starting sets is a merge of valid entries on both sides"""
+    import re
+    from . import C03, actorfw
+    sub = type(ctx)(ctx.prop, ctx.tier, ctx.facts, ctx.cfg)
+    C03.r1(sub)
+    C03.r2(sub)
+    for o in sub.obligations:
+        pass
+        o = dict(o)
+        o["key"] = re.sub(r"^C\d\d\.R\w+", "C01.R7", o["key"])
+        o["rule"] = "C01.R7"
+        ctx.obligations.append(o)
+        if o["status"] != "holds":
+            ctx.violations.append(o)
+    ctx.analysed_bodies |= sub.analysed_bodies
+    actorfw.claim(ctx, "C01.R7", handlers=("SyncInitialMessage", "SyncProcessMessage"), clients=("sync_initial_message", "sync_process_message"))
+    ctx.floor("C01.R7", 20)
+
+
 def run(ctx):
     ctx.run_rule("C01.R1", r1)
     ctx.run_rule("C01.R2", r2)
@@ -558,3 +580,4 @@ def run(ctx):
     ctx.run_rule("C01.R4", r4)
     ctx.run_rule("C01.R5", r5)
     ctx.run_rule("C01.R6", r6)
+    ctx.run_rule("C01.R7", r7)
